@@ -42,6 +42,26 @@ def check_cases(cases: list[dict], rep: Report, known: dict) -> None:
     work = []
     g = gen.Gen(__import__("random").Random(cases[0].get("seed", 1)))
     inners = [x_(), X.Add(x_(), X.Constant(1)), g.expr(2), g.expr(3)]
+    def base_case(cname, K, tag, inner, itxt, b):
+        rep.evaluations += 1
+        got = call(lambda: K(inner, base=b))
+        good = b > 0 and not (cname == "Logarithm" and b == 1)
+        info = {"constructor": cname, "base": repr(b), "inner": itxt[:100], "impl": repr(got)[:200]}
+        rep.count(cname, "accepted" if good else "rejected")
+        rep.case((cname, repr(b), itxt), True)
+        if good:
+            if got[0] != "ok" or got[1].base != b or not (got[1].base is b or got[1].base == b):
+                rep.violation(f"{cname}(u, base={b!r}) should be accepted and report its base back: {got!r}", info)
+        elif got[0] == "ok":
+            rep.violation(f"{cname}({itxt[:80]}, base={b!r}) was accepted", info)
+        work.append((info, got, bt.ask(f"F0 mk {tag} e {itxt} {wire.num(b)}")))
+
+    def same(a, b):
+        try:
+            return bool(a == b)
+        except Exception:
+            return False
+
     for inner in inners:
         itxt = wire.expr(inner)
         # n of NthPower / NthRoot
@@ -69,21 +89,46 @@ def check_cases(cases: list[dict], rep: Report, known: dict) -> None:
         # bases
         for cname, K, tag in (("Exponential", X.Exponential, "E"), ("Logarithm", X.Logarithm, "L")):
             for b in BASES:
-                rep.evaluations += 1
-                got = call(lambda: K(inner, base=b))
-                good = b > 0 and not (cname == "Logarithm" and b == 1)
-                info = {"constructor": cname, "base": repr(b), "inner": itxt[:100], "impl": repr(got)[:200]}
-                rep.count(cname, "accepted" if good else "rejected")
-                rep.case((cname, repr(b), itxt), True)
-                if good:
-                    if got[0] != "ok" or got[1].base != b or not (got[1].base is b or got[1].base == b):
-                        rep.violation(f"{cname}(u, base={b!r}) should be accepted and report its base back: {got!r}", info)
-                elif got[0] == "ok":
-                    rep.violation(f"{cname}(u, base={b!r}) was accepted", info)
-                work.append((info, got, bt.ask(f"F0 mk {tag} e {itxt} {wire.num(b)}")))
+                base_case(cname, K, tag, inner, itxt, b)
             d = call(lambda: K(inner))
             if d[0] != "ok" or d[1].base != math.e:
                 rep.violation(f"{cname}(u) default base is not e: {d!r}", {"constructor": cname})
+    # twin parameters: the operand is itself a parametrised node whose parameter equals (under ==, in
+    # every spelling of the grid) the parameter under test -- the acceptance rule must not depend on it
+    for cname, K, tag in (("Exponential", X.Exponential, "E"), ("Logarithm", X.Logarithm, "L")):
+        for b in BASES:
+            for ib in BASES:
+                if not same(ib, b):
+                    continue
+                for IK in (X.Exponential, X.Logarithm):
+                    t = call(lambda: IK(X.Add(x_(), X.Constant(3)), base=ib))
+                    if t[0] == "ok":
+                        rep.count("twin parameter", f"{cname} of {IK.__name__}")
+                        base_case(cname, K, tag, t[1], wire.expr(t[1]), b)
+    for cname, K, tag in (("NthPower", X.NthPower, "NP"), ("NthRoot", X.NthRoot, "NR")):
+        for n in NVALS:
+            if not (isinstance(n, (int, float)) and not isinstance(n, bool)):
+                continue
+            for m in NVALS:
+                if not (isinstance(m, int) and not isinstance(m, bool) and same(m, n)) and not (isinstance(m, int) and not isinstance(m, bool) and m >= 1 and isinstance(n, (int, float)) and math.isfinite(n) and m == abs(n)):
+                    continue
+                for IK in (X.NthPower, X.NthRoot):
+                    t = call(lambda: IK(x_(), m))
+                    if t[0] != "ok":
+                        continue
+                    rep.evaluations += 1
+                    rep.count("twin parameter", f"{cname} of {IK.__name__}")
+                    got = call(lambda: K(t[1], n))
+                    good = math.isfinite(n) and float(n).is_integer() and n >= 1
+                    ttxt = wire.expr(t[1])
+                    info = {"constructor": cname, "n": repr(n), "inner": ttxt[:100], "impl": repr(got)[:200]}
+                    rep.case((cname, repr(n), ttxt), True)
+                    if good and (got[0] != "ok" or got[1].n != int(n)):
+                        rep.violation(f"{cname}({ttxt[:80]}, n={n!r}) should be accepted with n = {int(n)}: {got!r}", info)
+                    elif not good and got[0] == "ok":
+                        rep.violation(f"{cname}({ttxt[:80]}, n={n!r}) was accepted (n = {got[1].n!r})", info)
+                    inst = "Q" if isinstance(n, int) and abs(n) > 2 ** 53 else "F0"
+                    work.append((info, got, bt.ask(f"{inst} mk {tag} e {ttxt} n {wire.num(n)}")))
     # variable names
     for n in NAMES:
         rep.evaluations += 1
